@@ -117,7 +117,9 @@ def gen_netlist(rng: random.Random, max_comps=5, max_pins=4, kind="random", min_
         a, b = rng.sample(range(nc), 2)
         pa = [(a, k) for k in range(comps[a]["n"])]
         pb = [(b, k) for k in range(comps[b]["n"])]
-        for x, y in list(zip(pa, pb))[:rng.choice([2, 2, 3])]:
+        rng.shuffle(pa)
+        rng.shuffle(pb)         # several links between one pair, in permuted pin order (3-cycles and longer included)
+        for x, y in list(zip(pa, pb))[:rng.choice([2, 2, 3, 3, 4])]:
             conns.append([list(x), list(y)])
             used.add(x)
             used.add(y)
@@ -188,6 +190,9 @@ def build(desc, shuffle=False):
             for (a, b) in conns:
                 lk.connect(sts[a[0]].pin[f"p{a[1]}"], sts[b[0]].pin[f"p{b[1]}"])
             for (c, k, name) in expo:
+                if comps[c].get("n", 0) > 1 and not comps[c].get("ps") and rng.random() < 0.2:
+                    # the name is first given to another pin of the structure, then mapped again: the last mapping counts
+                    lk.putpin(name, sts[c].pin[f"p{(k + 1) % comps[c]['n']}"])
                 if rng.random() < 0.5:
                     lk.Pin(name).put(sts[c].pin[f"p{k}"])
                 else:
